@@ -239,6 +239,17 @@ func (c *Ctx) ruleCompletedOnce(rule string) {
 		}
 	}
 	c.ruleWrapperAccounting(rule)
+	// who may count what: Completed only in the completion callback, Successful/Failed only in the wrappers,
+	// Submitted only in the submit functions and the subscription handler
+	wrappers := c.fieldFuncTargets(R.FWorkerFn)
+	var submitters []*Func
+	submitters = append(submitters, c.submitFuncs()...)
+	submitters = append(submitters, c.subscriptionHandlers()...)
+	for m, allowed := range map[string][]*Func{"incCompleted": {R.Completion}, "incSuccessful": wrappers, "incFailed": wrappers, "incSubmitted": submitters} {
+		keys := R.MetricKeys[m]
+		c.whoMayCall(rule, m, func(cs CallSite) bool { return keys[cs.Callee.Key] }, inOrUnder(allowed...), map[string]string{
+			"incCompleted": "the completion callback", "incSuccessful": "a worker-function wrapper", "incFailed": "a worker-function wrapper", "incSubmitted": "a submit function or the subscription handler"}[m])
+	}
 	// metrics counters are only touched through the inc* methods and Reset
 	metricsT := modPath + ".metrics"
 	c.whoMayCall(rule, "update of a metrics counter", func(cs CallSite) bool {
@@ -351,6 +362,7 @@ func runC18(c *Ctx) {
 	c.ruleNodeCreation("R18.3")
 	c.ruleSnapshotBounds("R18.4")
 	c.ruleMinimumIdle("R18.5")
+	c.ruleNodeKeptOrRetired("R18.6")
 	c.Rep.rule("R01.4", "typestate", "Send/Stop/PushNode/Cache.Put on a pool node require ownership (a stopped node that still serves a job, or an idle node that is stopped, breaks the pool accounting)", 6)
 	c.runOwnership("R01.4")
 }
@@ -656,6 +668,10 @@ func (c *Ctx) ruleStopTearsDown(rule string) {
 			if o.Final != "Running" {
 				continue
 			}
+			if wi := o.idx("withcancel(ctx)"); wi >= 0 {
+				c.Rep.check(o.idx("cancel") >= 0 && o.idx("cancel") < wi, rule, "Restart", "context re-derived without cancelling the previous one (from "+s+")", o.End, "previous context cancelled before a new one is derived",
+					"Restart from "+s+" derives a new context without cancelling the previous run's: that run's listener goroutine stays blocked for as long as the parent context lives (one more per Restart): "+o.String())
+			}
 			good := o.idx("stopall") >= 0 && o.idx("stopall") < o.idx("go:dispatcher") && o.idx("wait") >= 0 && o.idx("wait") < o.idx("stopall")
 			c.Rep.check(good, rule, "Restart", "idle nodes of the old run survive (from "+s+")", o.End, "Restart from "+s+": "+o.String(), "Restart from "+s+" must wait and remove the old run's idle nodes before starting the new run (their goroutines would accumulate): "+o.String())
 		}
@@ -835,6 +851,18 @@ func (c *Ctx) ruleMinimumIdle(rule string) {
 			want = 1
 		}
 		c.Rep.check(res[0].I == want, rule, minF.Short(), inst, c.P.pos(minF.Body), fmt.Sprintf("%s = %d", inst, want), fmt.Sprintf("%s evaluates to %d, expected max(limit*ratio/100, 1) = %d", inst, res[0].I, want))
+	}
+	// the reaper re-reads the minimum on every tick (a value computed once per run ignores later TunePool calls)
+	if R.Reaper != nil {
+		n := 0
+		for _, cs := range c.P.calls(R.Reaper) {
+			if cs.Callee.Key == minF.Key {
+				n++
+				c.Rep.check(c.loopDepthOf(R.Reaper, cs.Call) >= 1, rule, R.Reaper.Short(), "idle target computed outside the tick loop", c.P.pos(cs.Call), "minimum re-read on every tick", "the reaper computes the idle target outside its tick loop")
+			}
+		}
+		c.Rep.check(n >= 1, rule, R.Reaper.Short(), "idle target not re-read per tick", c.P.pos(R.Reaper.Body), "the reaper calls the minimum-idle function inside its loop",
+			"the reaper goroutine never calls "+minF.Short()+" itself: its idle target is a value computed once when the run started, so it ignores every later TunePool (too many or too few idle workers are kept)")
 	}
 	// TunePool shrink loop: continues only while idle > minimum
 	tp := c.methodOf(R.WorkerT, "TunePool")
